@@ -836,9 +836,15 @@ class Runner:
             # Decode if it appears to be binary-type. (From real terminal
             # streams, usually yes; from file-like objects, often no.)
             if bytes_ and isinstance(bytes_, bytes):
-                # TODO: will decoding 1 byte at a time break multibyte
-                # character encodings? How to square interactivity with that?
-                bytes_ = self.decode(bytes_)
+                # Decode incrementally: reads are often 1 byte long, which
+                # would otherwise tear multibyte characters apart.
+                decoder = getattr(self, "_stdin_decoder", None)
+                if decoder is None:
+                    decoder = codecs.getincrementaldecoder(self.encoding)(
+                        errors="replace"
+                    )
+                    self._stdin_decoder = decoder
+                bytes_ = decoder.decode(bytes_) or None
         return bytes_
 
     def handle_stdin(
